@@ -233,7 +233,7 @@ pub fn place(s: &str, pos: usize) -> V {
     }
 }
 
-fn case_json(v: &V, compact: bool, multiline: bool) -> Value {
+pub fn case_json(v: &V, compact: bool, multiline: bool) -> Value {
     json!({"tree": v.to_json(), "compact": compact, "multiline_strings": multiline})
 }
 
